@@ -155,6 +155,8 @@ func (w *attWorld) do(g int, op *Op) string {
 	})
 }
 
+func (w *attWorld) state() any { return w.p }
+
 func (w *attWorld) observe() string { return w.search(&Op{K: "search"}) }
 
 func attMeta(c *Case, op *Op) meta {
@@ -211,9 +213,12 @@ func buildAttSlashing(a *Op) *phase0.AttesterSlashing {
 }
 
 type opsWorld struct {
-	add func(a *Op) error
-	all func() []string
+	inst any // the pool
+	add  func(a *Op) error
+	all  func() []string
 }
+
+func (w *opsWorld) state() any { return w.inst }
 
 func newOpsWorld(c *Case) (world, error) {
 	ctx := context.Background()
@@ -221,6 +226,7 @@ func newOpsWorld(c *Case) (world, error) {
 	switch c.Comp {
 	case "exit":
 		p := pool.NewVoluntaryExitPool(poolSpec)
+		w.inst = p
 		w.add = func(a *Op) error { return p.AddVoluntaryExit(ctx, buildExit(a)) }
 		w.all = func() (out []string) {
 			for _, x := range p.All() {
@@ -230,6 +236,7 @@ func newOpsWorld(c *Case) (world, error) {
 		}
 	case "propslash":
 		p := pool.NewProposerSlashingPool(poolSpec)
+		w.inst = p
 		w.add = func(a *Op) error { return p.AddProposerSlashing(ctx, buildPropSlashing(a)) }
 		w.all = func() (out []string) {
 			for _, x := range p.All() {
@@ -239,6 +246,7 @@ func newOpsWorld(c *Case) (world, error) {
 		}
 	case "attslash":
 		p := pool.NewAttesterSlashingPool(poolSpec)
+		w.inst = p
 		w.add = func(a *Op) error { return p.AddAttesterSlashing(ctx, buildAttSlashing(a)) }
 		w.all = func() (out []string) {
 			for _, x := range p.All() {
@@ -281,6 +289,8 @@ type syncWorld struct {
 func newSyncWorld(c *Case) (world, error) {
 	return &syncWorld{p: pool.NewSyncCommitteePool(poolSpec)}, nil
 }
+
+func (w *syncWorld) state() any { return w.p }
 
 var members8 = []common.ValidatorIndex{0, 1, 2, 3, 4, 5, 6, 7}
 
